@@ -491,23 +491,92 @@ Lemma cidr_rules_see_addresses p u r :
   (In r (p_allow p) \/ In r (p_deny p)) -> r_is_cidr r = true -> ips_seen p u = resolved_addrs u.
 Proof. intros Hin Hc. apply ips_seen_when_needed. exact (cidr_rule_needs_ips p r Hin Hc). Qed.
 
-(** * Where the faithful model of the current code falls short of the property's reading of
-    "deny rules win ... (IP or CIDR)": netip keeps an address written as ::ffff:a.b.c.d as a
-    128-bit address, egress.go unmaps every address before testing it, so an IP/CIDR rule in
-    IPv4-mapped notation matches nothing - not even a target that is literally that address. *)
-Lemma deny_ip_rule_mapped_notation_refuted :
-  exists p u a,
-    p_deny p = [cidr_rule F6 a 128] /\
-    h_literal u = Some {| ip_fam := F6; ip_val := a |} /\
-    check p u = Allow.
+(** * IP/CIDR rules written in IPv4-mapped notation (parseEgressRule after fix 4e2df4c) *)
+
+Lemma compile_prefix_mapped px :
+  px_fam px = F6 -> (96 <= px_bits px)%N -> (mapped_lo <= px_addr px <= mapped_hi)%N ->
+  compile_prefix px = {| px_fam := F4; px_addr := (px_addr px - mapped_lo)%N; px_bits := (px_bits px - 96)%N |}.
 Proof.
-  exists (open_policy [] [cidr_rule F6 (mapped_lo + quad 8 8 8 8) 128]),
-         (mk_hop "http" "::ffff:8.8.8.8" (Some {| ip_fam := F6; ip_val := (mapped_lo + quad 8 8 8 8)%N |}) []),
-         (mapped_lo + quad 8 8 8 8)%N.
-  vm_compute. repeat split.
+  intros Hf Hb Hm. unfold compile_prefix, is4in6. rewrite Hf.
+  unfold mapped_lo, mapped_hi, c32 in *. eval_consts.
+  assert (E : (px_addr px / 4294967296 =? 65535)%N = true) by lia.
+  assert (E2 : (96 <=? px_bits px)%N = true) by lia.
+  rewrite E, E2. cbn [andb]. f_equal. lia.
 Qed.
 
-Lemma mapped_notation_rule_never_hits px i :
-  px_fam px = F6 -> (96 <= px_bits px)%N -> (mapped_lo <= px_addr px <= mapped_hi)%N -> wf_ip i ->
-  cidr_hit px i = false.
-Proof. intros. unfold cidr_hit. apply mapped_notation_rule_is_dead; assumption. Qed.
+Lemma compile_prefix_other px :
+  (px_fam px <> F6 \/ (px_bits px < 96)%N \/ ~ (mapped_lo <= px_addr px <= mapped_hi)%N) ->
+  compile_prefix px = px.
+Proof.
+  intros H. unfold compile_prefix, is4in6. destruct (px_fam px) eqn:Ef; try reflexivity.
+  unfold mapped_lo, mapped_hi, c32 in *. eval_consts.
+  destruct H as [H|[H|H]]; [congruence | |].
+  - assert (E2 : (96 <=? px_bits px)%N = false) by lia. rewrite E2, andb_false_r. reflexivity.
+  - assert (E : (px_addr px / 4294967296 =? 65535)%N = false) by lia. rewrite E. reflexivity.
+Qed.
+
+(** A rule in mapped notation hits exactly the addresses its unmapped form names: those that
+    denote an IPv4 address inside a.b.c.d/(n-96) ... *)
+Lemma mapped_rule_hits_unmapped_form px i :
+  px_fam px = F6 -> (96 <= px_bits px)%N -> (mapped_lo <= px_addr px <= mapped_hi)%N ->
+  (cidr_hit (compile_prefix px) i = true <->
+   match denotes i with
+   | A4 v => spec_in_block 32 (px_bits px - 96) (px_addr px - mapped_lo) v
+   | _ => False
+   end).
+Proof.
+  intros Hf Hb Hm. rewrite (compile_prefix_mapped px Hf Hb Hm), cidr_hit_spec. cbn [px_fam px_addr px_bits].
+  destruct (denotes i); tauto.
+Qed.
+
+(** ... equivalently, those whose own IPv4-mapped spelling lies in the 128-bit block as written. *)
+Lemma div_pow2_shift_mapped k a v :
+  (k <= 32)%N -> ((mapped_lo + a) / 2 ^ k = (mapped_lo + v) / 2 ^ k <-> a / 2 ^ k = v / 2 ^ k)%N.
+Proof.
+  intros Hk.
+  assert (Hm : mapped_lo = (65535 * 2 ^ (32 - k) * 2 ^ k)%N).
+  { rewrite <- N.mul_assoc, <- N.pow_add_r. replace (32 - k + k)%N with 32%N by lia. reflexivity. }
+  assert (Hnz : (2 ^ k <> 0)%N) by (apply N.pow_nonzero; discriminate).
+  rewrite Hm, !N.div_add_l by exact Hnz. lia.
+Qed.
+
+Lemma mapped_rule_hits_mapped_spelling px i :
+  px_fam px = F6 -> (96 <= px_bits px <= 128)%N -> (mapped_lo <= px_addr px <= mapped_hi)%N ->
+  (cidr_hit (compile_prefix px) i = true <->
+   match denotes i with
+   | A4 v => spec_in_block 128 (px_bits px) (px_addr px) (mapped_lo + v)
+   | _ => False
+   end).
+Proof.
+  intros Hf Hb Hm. rewrite (mapped_rule_hits_unmapped_form px i Hf (proj1 Hb) Hm).
+  destruct (denotes i) as [v| |]; try tauto.
+  unfold spec_in_block, blk_size.
+  replace (32 - (px_bits px - 96))%N with (128 - px_bits px)%N by lia.
+  replace (px_addr px) with (mapped_lo + (px_addr px - mapped_lo))%N at 2 by lia.
+  rewrite div_pow2_shift_mapped by lia. split; intros [H1 H2]; (split; [lia | exact H2]).
+Qed.
+
+(** so a deny rule in that notation wins like any other ([deny_wins]) *)
+Lemma mapped_deny_rule_wins p u r px i v :
+  In r (p_deny p) -> r_is_cidr r = true -> r_px r = compile_prefix px ->
+  px_fam px = F6 -> (96 <= px_bits px)%N -> (mapped_lo <= px_addr px <= mapped_hi)%N ->
+  In i (resolved_addrs u) -> denotes i = A4 v ->
+  spec_in_block 32 (px_bits px - 96) (px_addr px - mapped_lo) v ->
+  check p u <> Allow.
+Proof.
+  intros Hin Hc Hpx Hf Hb Hm Hi Hd Hblk. apply deny_wins. apply match_rules_full_spec.
+  exists r. split; [exact Hin|]. rewrite Hc.
+  rewrite (cidr_rules_see_addresses p u r (or_intror Hin) Hc).
+  exists i. split; [exact Hi|]. rewrite Hpx.
+  apply (mapped_rule_hits_unmapped_form px i Hf Hb Hm). rewrite Hd. exact Hblk.
+Qed.
+
+Example ex_mapped_deny_rule :
+  let px := {| px_fam := F6; px_addr := (mapped_lo + quad 8 8 8 8)%N; px_bits := 128 |} in
+  let r := {| r_is_cidr := true; r_host := ""; r_sub := false; r_px := compile_prefix px |} in
+  let pol := open_policy [] [r] in
+  check pol (mk_hop "http" "::ffff:8.8.8.8" (Some {| ip_fam := F6; ip_val := (mapped_lo + quad 8 8 8 8)%N |}) []) = Deny RDenied /\
+  check pol (mk_hop "http" "8.8.8.8" (Some (ip4 8 8 8 8)) []) = Deny RDenied /\
+  check pol (mk_hop "http" "8.8.8.9" (Some (ip4 8 8 8 9)) []) = Allow /\
+  compile_prefix {| px_fam := F6; px_addr := mapped_lo; px_bits := 95 |} = {| px_fam := F6; px_addr := mapped_lo; px_bits := 95 |}.
+Proof. vm_compute. repeat split. Qed.
